@@ -1,5 +1,6 @@
 #![doc = include_str!("../README.md")]
 
+#[cfg_attr(feature = "verif", allow(unused_imports))]
 use std::{
     collections::HashSet,
     fmt,
@@ -15,7 +16,10 @@ use std::{
 
 use log::{debug, trace};
 use memmap2::MmapMut;
+#[cfg(not(feature = "verif"))]
 use parking_lot::{Condvar, Mutex, RwLock, RwLockReadGuard, RwLockWriteGuard};
+#[cfg(feature = "verif")]
+use verif::sync::{Condvar, Mutex, RwLock, RwLockReadGuard, RwLockWriteGuard};
 
 mod disk_usage;
 pub mod error;
@@ -28,6 +32,8 @@ mod region;
 mod region_metadata;
 mod region_state;
 mod regions;
+#[cfg(feature = "verif")]
+pub mod verif;
 
 pub use disk_usage::*;
 pub use error::*;
@@ -62,7 +68,10 @@ struct DatabaseInner {
     mmap: RwLock<MmapMut>,
     file: RwLock<File>,
     cached_file_len: AtomicUsize,
+    #[cfg(not(feature = "verif"))]
     bg_tasks: Mutex<Vec<JoinHandle<Result<()>>>>,
+    #[cfg(feature = "verif")]
+    bg_tasks: Mutex<Vec<verif::thread::JoinHandle<Result<()>>>>,
     bg_sync: (Mutex<bool>, Condvar),
 }
 
@@ -92,13 +101,33 @@ impl Database {
 
         let mut file_len = file.metadata()?.len() as usize;
         if file_len < min_len {
+            #[cfg(feature = "verif")]
+            verif::io(
+                verif::FileKind::Data,
+                verif::IoKind::SetLen,
+                min_len,
+                0,
+                &[],
+            )?;
             file.set_len(min_len as u64)?;
+            #[cfg(feature = "verif")]
+            verif::io(verif::FileKind::Data, verif::IoKind::Sync, 0, 0, &[])?;
             file.sync_all()?;
             file_len = min_len;
         }
 
         let regions = Regions::open(path)?;
+        #[cfg(feature = "verif")]
+        verif::io(verif::FileKind::Data, verif::IoKind::Map, 0, file_len, &[])?;
         let mmap = create_mmap(&file)?;
+        #[cfg(feature = "verif")]
+        verif::io_note(
+            verif::FileKind::Data,
+            verif::IoKind::Mapped,
+            mmap.as_ptr() as usize,
+            mmap.len(),
+            &[],
+        );
 
         let db = Self(Arc::new(DatabaseInner {
             path: path.to_owned(),
@@ -151,9 +180,35 @@ impl Database {
             "{}: set_min_len to {} (requested {})",
             self, target_len, len
         );
+        #[cfg(feature = "verif")]
+        verif::pause("set_min_len:locked");
+        #[cfg(feature = "verif")]
+        verif::io(
+            verif::FileKind::Data,
+            verif::IoKind::SetLen,
+            target_len,
+            0,
+            &[],
+        )?;
         file.set_len(target_len as u64)?;
         self.0.cached_file_len.store(target_len, Ordering::Relaxed);
+        #[cfg(feature = "verif")]
+        verif::io(
+            verif::FileKind::Data,
+            verif::IoKind::Map,
+            0,
+            target_len,
+            &[],
+        )?;
         *mmap = create_mmap(&file)?;
+        #[cfg(feature = "verif")]
+        verif::io_note(
+            verif::FileKind::Data,
+            verif::IoKind::Mapped,
+            mmap.as_ptr() as usize,
+            mmap.len(),
+            &[],
+        );
         Ok(())
     }
 
@@ -211,6 +266,9 @@ impl Database {
 
     #[inline]
     pub(crate) fn write(&self, start: usize, data: &[u8]) {
+        #[cfg(feature = "verif")]
+        self.verif_write(start, data);
+        #[cfg(not(feature = "verif"))]
         write_to_mmap(&self.mmap(), start, data);
     }
 
@@ -231,7 +289,19 @@ impl Database {
         }
 
         let mmap = self.mmap();
+        #[cfg(feature = "verif")]
+        verif::pause("copy:before");
+        #[cfg(feature = "verif")]
+        verif::io_note(
+            verif::FileKind::Data,
+            verif::IoKind::Write,
+            dst,
+            len,
+            &mmap[src..src_end],
+        );
         write_to_mmap(&mmap, dst, &mmap[src..src_end]);
+        #[cfg(feature = "verif")]
+        verif::pause("copy:after");
         Ok(())
     }
 
@@ -359,6 +429,8 @@ impl Database {
 
         // Data must be durable before metadata (crash safety).
         self.regions().flush()?;
+        #[cfg(feature = "verif")]
+        verif::io(verif::FileKind::Data, verif::IoKind::Sync, 0, 0, &[])?;
         self.file().sync_data()?;
         self.regions().sync_data()?;
         for (region, _) in &dirty_regions {
@@ -400,6 +472,8 @@ impl Database {
         self.flush()?;
         let flush_time = i.elapsed();
         let i = Instant::now();
+        #[cfg(feature = "verif")]
+        verif::pause("compact:between");
         let r = self.punch_holes();
         let punch_time = i.elapsed();
         debug!(
@@ -421,6 +495,12 @@ impl Database {
         // joins this thread before the Arc is deallocated.
         // ManuallyDrop prevents the refcount decrement we never incremented.
         let db = ManuallyDrop::new(unsafe { Self(Arc::from_raw(Arc::as_ptr(&self.0))) });
+        #[cfg(feature = "verif")]
+        self.0
+            .bg_tasks
+            .lock()
+            .push(verif::thread::spawn(move || f(&db)));
+        #[cfg(not(feature = "verif"))]
         self.0.bg_tasks.lock().push(thread::spawn(move || f(&db)));
     }
 
@@ -461,6 +541,8 @@ impl Database {
 
         let file = self.file();
         let mut punched = 0usize;
+        #[cfg(feature = "verif")]
+        verif::pause("punch_holes:start");
 
         // Punch region reserved space. We MUST hold meta WRITE before checking,
         // because write_with does db.write() BEFORE updating meta. If we only
@@ -504,6 +586,8 @@ impl Database {
         if punched > 0 {
             debug!("{}: punch_holes syncing after {} punches", self, punched);
             let file = self.file();
+            #[cfg(feature = "verif")]
+            verif::io(verif::FileKind::Data, verif::IoKind::Sync, 0, 0, &[])?;
             file.sync_data()?;
         }
 
@@ -565,6 +649,22 @@ impl Database {
         }
 
         false
+    }
+
+    /// Store through the data mapping with the seams of the `verif` feature around it.
+    #[cfg(feature = "verif")]
+    fn verif_write(&self, start: usize, data: &[u8]) {
+        let mmap = self.mmap();
+        verif::pause("write:before");
+        verif::io_note(
+            verif::FileKind::Data,
+            verif::IoKind::Write,
+            start,
+            data.len(),
+            data,
+        );
+        write_to_mmap(&mmap, start, data);
+        verif::pause("write:after");
     }
 
     #[inline(always)]
